@@ -4,6 +4,7 @@
 name=$1; shift
 pids="$@"; [ -z "$pids" ] && pids=${name:0:3}
 cd /verif
+export VERIF_EVIDENCE_DIR=/verif/work/evidence_seeded   # never overwrite the evidence of the unchanged tree
 if [ -n "$(git -C /repo status --porcelain --untracked-files=no)" ]; then echo "/repo not clean"; exit 2; fi
 trap 'git -C /repo checkout -- . ; python3 /verif/tools/extract_consts.py >/dev/null' EXIT
 git -C /repo apply /verif/seeded/$name/patch.diff || { echo "$name APPLY-FAIL"; exit 2; }
